@@ -187,6 +187,8 @@ def process_unit(unit, outdir, rlimit):
         res['wall_s'] = time.time() - t0
         return res
     res['report'] = report
+    proved_somewhere = {dir_name(d).split('::')[-1] for d in all_directives()}
+    res['trusted_scan'] = [t for t in scan_trusted(path) if not (t.startswith('assumed contract (external_body fn) ') and t.split()[-1] in proved_somewhere)]
     src_lines = open(path).read().split('\n')
     with concurrent.futures.ThreadPoolExecutor(max_workers=2) as ex:
         f1 = ex.submit(run_verus, path, rlimit)
@@ -404,6 +406,8 @@ def main(argv):
         results = list(ex.map(lambda u: get_unit_result(u, key, rlimit), units))
     prune_cache(key)
     known = load_known()
+    allow_p = os.path.join(VERIF, 'trusted_allowlist.json')
+    allow = set(json.load(open(allow_p))) if os.path.exists(allow_p) else None
     violations = []
     known_hits = []
     undecided = []
@@ -414,6 +418,11 @@ def main(argv):
     samples = []
     trusted = []
     own_units = units_for(prop)
+    for r in results:
+        if allow is not None and r['unit'] in units_for(prop):
+            extra = [t for t in r.get('trusted_scan', []) if t not in allow and not t.startswith('opaque region')]
+            if extra:
+                undecided.append('%s: trusted construct not in trusted_allowlist.json: %s' % (r['unit'], ', '.join(sorted(set(extra))[:5])))
     for r in results:
         smt_ms += r.get('smt_ms', 0)
         if r['status'] == 'undecided' and (r['unit'] in own_units):
@@ -452,6 +461,8 @@ def main(argv):
                             'lock_acquisitions': f.get('lock_acquisitions')})
             elif f['unit'] not in units:
                 trusted.append('assumed contract (not proved in the units of this run): %s' % f['fn'])
+        if r['unit'] in own_units:
+            trusted += r.get('trusted_scan', [])
     # samples: a few obligations written out
     for d in all_directives():
         if prop in (d.opt('props', '') or '').split(',') and len(samples) < 6:
@@ -566,11 +577,30 @@ def main(argv):
     return status
 
 
+def scan_trusted(path):
+    """mechanical scan of a generated unit for everything that is assumed rather than proved"""
+    out = []
+    try:
+        txt = open(path).read()
+    except OSError:
+        return out
+    for m in re.finditer(r'broadcast axiom fn\s+(\w+)', txt):
+        out.append('axiom ' + m.group(1))
+    for m in re.finditer(r'assume_specification(?:<[^\[]*>)?\s*\[([^\]]+)\]', txt):
+        out.append('assumed std spec ' + re.sub(r'\s+', '', m.group(1)))
+    for m in re.finditer(r'uninterp spec fn\s+(\w+)', txt):
+        out.append('uninterpreted ' + m.group(1))
+    for m in re.finditer(r'#\[verifier::external_body\]\s*(?:#\[[^\]]*\]\s*)*(?:pub\s+)?(?:async\s+)?(fn|struct)\s+(\w+)', txt):
+        out.append(('assumed contract (external_body fn) ' if m.group(1) == 'fn' else 'opaque external type ') + m.group(2))
+    for m in re.finditer(r'\bassume\s*\(|\badmit\s*\(', txt):
+        out.append('ASSUME/ADMIT in text at offset %d' % m.start())
+    for m in re.finditer(r'// \[R17\] opaque region \((\d+) lines not verified\)', txt):
+        out.append('opaque region R17 (%s lines not verified)' % m.group(1))
+    return out
+
+
 def common_trusted():
-    p = os.path.join(VERIF, 'trusted_base.json')
-    if os.path.exists(p):
-        return json.load(open(p))
-    return []
+    return ['extraction rules R1..R20 as counted per function (tools/extract.py)', 'Verus 0.2026.09.13 + Z3 + vstd']
 
 
 def find_witness(prop, violations):
